@@ -97,6 +97,11 @@ double check_reproduction(TasmanianSparseGrid const &g, CaseCtx &c, Rng &rng, st
 // must not push a node out of the support of compactly supported bases); identity when no domain transform is set
 std::vector<double> interior_nudged(TasmanianSparseGrid const &g, std::vector<double> const &x);
 std::vector<double> history_scale(TasmanianSparseGrid const &g, int output, uint64_t seed);
+// random reachable state for C06 / C11 / C12 / C13: configuration + history that may end with pending refinement or active construction
+bool random_state(HState &h, Rng &rng, CaseCtx &c, GenOpts const &go, int max_steps);
+// applies a random continuation to h.g and to every twin in lock-step; after every step the observations of all grids must be bitwise equal.
+// returns "" or "<step>:<field>" of the first divergence (detail filled)
+std::string lockstep(HState &h, std::vector<TasmanianSparseGrid*> const &twins, Rng &rng, int steps, HOpts const &ho, std::string &detail);
 // monitors
 void mon_c01(CaseCtx&, Rng&); void mon_c02(CaseCtx&, Rng&); void mon_c03(CaseCtx&, Rng&); void mon_c04(CaseCtx&, Rng&);
 void mon_c05(CaseCtx&, Rng&); void mon_c06(CaseCtx&, Rng&); void mon_c07(CaseCtx&, Rng&); void mon_c08(CaseCtx&, Rng&);
